@@ -3,7 +3,7 @@
 import json, sys, os
 V = os.path.dirname(os.path.dirname(os.path.abspath(__file__)))
 HOOK_COMMITS = ["cd80d8c"]
-FIX_COMMITS = ["19db2e0", "612f831", "571a0e7", "96684bc", "f012a8c", "eccf4bb", "14aaa4b", "54e5379", "46b26ac", "cb1d70b", "8661656"]
+FIX_COMMITS = ["19db2e0", "612f831", "571a0e7", "96684bc", "f012a8c", "eccf4bb", "14aaa4b", "54e5379", "46b26ac", "cb1d70b", "8661656", "47bfbed", "2e0e12f"]
 SIM_NOTE = ("Trusted base: the harness simulator (virtual clock + deterministic rand via the verif-hooks feature, simulated "
             "network whose per-packet fates are a pure function of (seed, link, per-link counter), strict request-executing game, "
             "30-line reference model of the delayed input stream) and proptest 1.11. Absence is not established: the claim is "
